@@ -7,13 +7,13 @@ from ..enum import Acc
 PID = "C17"
 LEVEL = "exploration"
 ASSUMPTIONS = [
-    "bodies over {a, CR, LF, NUL}; chunk extensions {none, ;a, ;a=b, ;a=b;c}; trailers {none, one, two}",
+    "bodies over {a, CR, LF, NUL}; chunk extensions {none, ;a, ;a=b, ;a=b;c}; trailers {none, one, two, two whose values hold colons}",
     "a chunk-size line made of hex digits padded with spaces/tabs may be accepted or rejected (RFC 7230 BWS), anything else that is "
     "not plain hex must be an error (an exception from the parser or the errored flag) and never yield a body",
 ]
 ALPHA = [b"a", b"\r", b"\n", b"\x00"]
 EXTS = [b"", b";a", b";a=b", b";a=b;c"]
-TRAILERS = [[], [("X-T", "1")], [("X-T", "1"), ("Y-U", "v w")]]
+TRAILERS = [[], [("X-T", "1")], [("X-T", "1"), ("Y-U", "v w")], [("X-N", "status: done"), ("Z", "a:b")]]      # last: values holding ': ' and ':'
 SIZECHARS = "019afAF+-xX_ \tg"
 HEXRE = re.compile(r"^[0-9A-Fa-f]+$")
 PADRE = re.compile(r"^[ \t]*[0-9A-Fa-f]+[ \t]*$")
@@ -24,7 +24,7 @@ RSPHEAD = b"HTTP/1.1 200 OK\r\nTransfer-Encoding: chunked\r\n\r\n"
 
 def RULE(tier):
     q = tier == "quick"
-    return ("(a) every body of length 0..%d over 4 byte values x every composition into chunks x 4 extension forms x 3 trailer sets, "
+    return ("(a) every body of length 0..%d over 4 byte values x every composition into chunks x 4 extension forms x 4 trailer sets, "
             "encoded by a reference encoder (and by httping.packChunk when no extension), decoded by the real Requestant and Respondent "
             "fed in one piece and byte by byte: "
             "body, trailers and extension parms must come back exactly; (b) every chunk-size string of length <= %d over %d characters "
@@ -112,6 +112,11 @@ def check_body(body, comp, ei, ti, use_pack):
         # (a server that sends the tail of its answer and closes): everything needed is in the buffer, the body must be whole
         first = len(b"%x" % comp[0]) + len(ext) + 2 + comp[0] + 2
         feeds.append(("rsp", (RSPHEAD + enc[:first], enc[first:]), ":tail-with-close"))
+    if comp and comp[0] >= 2 and not use_pack:
+        # the first chunk's data arrives in two reads, the second of which carries everything else as well
+        cut = len(b"%x" % comp[0]) + len(ext) + 2 + 1
+        for kind, head in (("req", REQHEAD), ("rsp", RSPHEAD)):
+            feeds.append((kind, (head + enc[:cut], enc[cut:]), ":cut-in-chunk-data"))
     for kind, frags, how in feeds:
         res, left, exc = httpgen.drive(kind, frags, close_first=(how == ":tail-with-close"))
         tag = "%s:%s%s%s" % (kind, "ext" if ext and not use_pack else "noext", ":trailers" if trailers else "", how)
